@@ -33,13 +33,14 @@ class _Timeout(Exception):
 def guard(sec):
     def handler(signum, frame):
         raise _Timeout()
-    old = signal.signal(signal.SIGALRM, handler)
-    signal.alarm(sec)
+    # CPU time of this process (ITIMER_VIRTUAL), not wall clock: a busy machine must not turn into "Solve never returns"
+    old = signal.signal(signal.SIGVTALRM, handler)
+    signal.setitimer(signal.ITIMER_VIRTUAL, sec)
     try:
         yield
     finally:
-        signal.alarm(0)
-        signal.signal(signal.SIGALRM, old)
+        signal.setitimer(signal.ITIMER_VIRTUAL, 0)
+        signal.signal(signal.SIGVTALRM, old)
 
 
 def build_term(spec):
